@@ -5,7 +5,11 @@ C10 — model of tetl's integer <-> text conversion, one model for every integer
   `etl::abs`, `etl::reverse`) and its wrappers `to_chars` (_charconv/to_chars.hpp) and
   `to_string<Capacity>` (_string/to_string.hpp);
 * `strings::to_integer` (include/etl/_strings/to_integer.hpp, with the two overflow checkers
-  and the `cctype` predicates it calls) and its wrappers `from_chars`, `sto*`, `strto*`, `ato*`.
+  and the `cctype` predicates it calls; the checkers and `parseDigit` are also TRANSLATED from the clang AST:
+  Tetl/C10/Gen.lean, proved equal to the definitions here in TetlProofs/C10/GenProps.lean) and its wrapper
+  `from_chars`;
+* `strings::detail::strto_integer` (include/etl/_strings/strto_integer.hpp), the C grammar on top of `to_integer`,
+  and its wrappers `strto*`, `ato*`, `sto*`.
 
 An integer type is `(bits, signed)`.  Values are `Int`; every arithmetic result that the C++
 converts back to `Int` goes through `IntTy.arith`, which wraps where the C++ wraps (unsigned
